@@ -467,7 +467,35 @@ func (x *executor) doCall(ti, ci int, ctx *callCtx) {
 			}
 		}
 		edited := map[tensor.Tensor]bool{}
+		if call.Rearrange != "" {
+			names := sortedKeys(ref.inObjs)
+			for i, k := range names {
+				t := ref.inObjs[k]
+				if t == nil || foreign[t] {
+					res.Skipped = true
+					return
+				}
+				switch call.Rearrange {
+				case "swapped":
+					in[names[(i+1)%len(names)]] = t
+				default:
+					if d, ok := t.(*tensor.Dense); ok && !d.IsScalar() && !d.RequiresIterator() && d.Dims() >= 2 {
+						sh := d.Shape().Clone()
+						for a, b := 0, len(sh)-1; a < b; a, b = a+1, b-1 {
+							sh[a], sh[b] = sh[b], sh[a]
+						}
+						if err := d.Reshape(sh...); err == nil {
+							edited[t] = true
+						}
+					}
+					in[k] = t
+				}
+			}
+		}
 		for k, v := range call.Inputs {
+			if call.Rearrange != "" {
+				break
+			}
 			if t := ref.inObjs[k]; t != nil && !foreign[t] && overwrite(t, v) {
 				in[k] = t
 				edited[t] = true
